@@ -460,5 +460,23 @@ func TestVerifC12(t *testing.T) {
 			return
 		}
 	}
-	vlib.DriveWith(t, vlib.Prop[c12Case]{ID: "C12", Gen: c12Gen, Run: c12Run}, cfg, st)
+	engReplay := false
+	if cfg.Replay != "" {
+		if raw, err := vlib.LoadReplay(cfg.Replay); err == nil && bytes.Contains(raw, []byte(`"phases"`)) {
+			engReplay = true
+		}
+	}
+	if !engReplay {
+		vlib.DriveWith(t, vlib.Prop[c12Case]{ID: "C12", Gen: c12Gen, Run: c12Run}, cfg, st)
+	}
+	if st.Failed() || (cfg.Replay != "" && !engReplay) {
+		return
+	}
+	// pages produced by the engine itself under queue-like workloads
+	ecfg := cfg
+	ecfg.Checks = cfg.Checks / 40
+	if ecfg.Checks < 25 {
+		ecfg.Checks = 25
+	}
+	vlib.DriveWith(t, vlib.Prop[c12EngCase]{ID: "C12", Gen: c12EngGen, Run: c12EngRun}, ecfg, st)
 }
